@@ -28,8 +28,9 @@ package tempfile
 //@ extern os.File.Name
 //@   pure
 //@   assigns nothing
+// (That the rename happens only on a completely written and closed file is an obligation at the call site in
+// WriteFileAtomic, not a precondition of os.Rename itself: other packages rename files too.)
 //@ extern os.Rename
-//@   requires complete: fsPhase == 3
 //@   assigns fsPhase
 //@   ensures renamed: fsPhase == ite(result == nil, 4, old(fsPhase))
 //@ extern os.Remove
@@ -51,4 +52,5 @@ package tempfile
 //@ func WriteFileAtomic
 //@   assigns fsPhase, atomicWriteFileRand
 //@   ensures done: result == nil <==> fsPhase == 4
+//@   atcall os.Rename complete: fsPhase == 3
 //@   loop 1 invariant phase: 0 <= i && i <= atomicWriteFileMaxNumWriteAttempts && ((i == 0 && fsPhase == old(fsPhase)) || (i > 0 && fsPhase == 0))
